@@ -55,17 +55,34 @@ def _argtag(args, kwargs):
     return ",".join(out)
 
 
-def _sink(obj, f, attrs, args, kwargs, hit, result):
+def _sink(phase, obj, f, attrs, args, kwargs, hit, result):
     st = STATE
     if st["busy"]:
         return
+    if phase == "pre":
+        if st["log"] is not None:
+            # the key material the documented mechanism uses at lookup time, compared with Python's
+            # own ==/hash (as functools.lru_cache does); typed=True makes argument types part of it
+            st["keys"].append((id(obj), obj.__cache_state__(), tuple(getattr(obj, a) for a in (attrs or ())),
+                               args, tuple(kwargs.items()), tuple(type(v) for v in args),
+                               tuple(type(v) for v in kwargs.values())))
+        return
+    if phase == "exc":
+        if st["log"] is not None and st["keys"]:
+            st["keys"].pop()
+        return
     site = "%s.%s" % (type(obj).__name__, f.__name__)
     if st["log"] is not None:
-        st["log"].append((id(obj), site, _argtag(args, kwargs), bool(hit)))
+        key = st["keys"].pop()
+        fid = st["fids"].setdefault(f, len(st["fids"]) + 1)
+        kid = st["kids"].setdefault(key, len(st["kids"]) + 1)
+        st["log"].append({"f": fid, "k": kid, "hit": 1 if hit else 0, "site": site})
     if not hit:
         st["misses"] += 1
         return
     st["hits"] += 1
+    if not st.get("shadow", True):
+        return
     st["busy"] = True
     try:
         try:
@@ -84,15 +101,23 @@ def _sink(obj, f, attrs, args, kwargs, hit, result):
             st["stale"].append(site + ("(" + tag + ")" if tag else ""))
 
 
-def install(log=False):
+def install(log=False, shadow=True):
     import pyunicorn.core.cache as cache
     if not getattr(cache, "_VERIF", False):
         raise RuntimeError("cache lookup hook inactive: PYUNICORN_VERIF=1 must be set before pyunicorn is "
                            "imported and core/cache.py must carry the guarded hook")
     cache._verif_sink = _sink
     STATE["installed"] = True
+    STATE["shadow"] = shadow
     STATE["log"] = [] if log else None
+    STATE["fids"], STATE["kids"], STATE["keys"] = {}, {}, []
     drain()
+
+
+def note(ev):
+    """Adds a harness event (e.g. a cache_clear call) to the lookup log."""
+    if STATE.get("log") is not None:
+        STATE["log"].append(ev)
 
 
 def uninstall():
